@@ -122,11 +122,13 @@ def run(ctx):
     # struct formats
     wr = ctx.anchor_func("flow.record.stream.RecordStreamWriter.write")
     rd = ctx.anchor_func("flow.record.stream.RecordStreamReader.read")
-    for fn, cn, side in ((wr, "struct.pack", "write"), (rd, "struct.unpack", "read")):
-        cs = [c for c in calls_in(fn) if call_name(c) == cn]
+    from .frame_common import struct_sites
+
+    for fn, kind, side in ((wr, "pack", "write"), (rd, "unpack", "read")):
+        cs = struct_sites(prog, fn, kind)
         if not cs:
-            raise AnalysisError(f"R2.1: {cn} not found in {fn.name}")
-        fact("length_format", _fold(prog, stream_m, cs[0].args[0]), SPEC["length_format"], cs[0], side)
+            raise AnalysisError(f"R2.1: length-prefix {kind} site not found in {fn.name}")
+        fact("length_format", cs[0][1], SPEC["length_format"], cs[0][0], side)
     # magic
     fact("magic", _fold(prog, base, ast.parse("RECORDSTREAM_MAGIC").body[0].value), SPEC["magic"], None, "write")
     wh = ctx.anchor_func("flow.record.stream.RecordStreamWriter.writeheader")
